@@ -79,7 +79,7 @@ impl Scenario for MacScenario {
             p["site_seed"] = json!(r.next_u64() >> 12);
             // "consistent": the corrupt helper adds the same error to a product share it sends AND to the copy of
             // that share it contributes to the opening, so that the two copies agree and only the MAC can catch it
-            p["attack"] = json!(if field == "vec16" { r.pick(&["lane_cancel", "lane_cancel", "consistent", "single"]) } else if field != "prf" { r.pick(&["consistent", "consistent", "single", "single", "rush"]) } else { "single" });
+            p["attack"] = json!(if field == "vec16" { r.pick(&["lane_cancel", "lane_cancel", "consistent", "single"]) } else if field != "prf" { r.pick(&["consistent", "consistent", "single", "single", "rush", "known_r"]) } else { "single" });
             p["lanes"] = json!([r.below(16), r.below(16)]);
             p["slow_corrupt"] = json!(r.chance(3, 4));
         }
@@ -234,12 +234,24 @@ struct RushSt<E> {
     repl: Option<E>,
     fired: Vec<Value>,
     too_early: u64,
+    /// every share of a batch's r seen on the wire: (src, dst, batch) -> value
+    r_seen: BTreeMap<(usize, usize, usize), E>,
+    /// the r the "known r" attack decided to use for the target record
+    used_r: Option<(usize, E)>,
 }
 
+/// mode 0: rush the check-zero step of `batch`; mode 1: only record the shares of r that are opened (honest run: this
+/// is how the harness learns the corrupt helper's OWN shares); mode 2: "known r" - when the product messages of record
+/// `target` go out and the r of its batch (or, failing that, of an earlier batch) is already known to the corrupt
+/// helper, add 1 to the product share, r to the duplicate product share and 1 to the copy opened later
 struct RushCz<E> {
     c: usize,
     w: usize,
     batch: usize,
+    mode: u8,
+    target: usize,
+    wf: usize,
+    own_r: BTreeMap<(usize, usize), E>,
     st: StdMutex<RushSt<E>>,
 }
 
@@ -248,12 +260,78 @@ impl<E: Field + Serializable> RushCz<E> {
         let crate::helpers::in_memory_config::InspectContext::MpcMessage { source, dest, gate, .. } = ctx else { return };
         let hid = |h: crate::helpers::HelperIdentity| if h == crate::helpers::HelperIdentity::ONE { 0 } else if h == crate::helpers::HelperIdentity::TWO { 1 } else { 2 };
         let (src, dst, gate) = (hid(*source), hid(*dest), gate.as_ref().to_string());
+        let mut st = self.st.lock().unwrap();
+        let start = { let e = st.pos.entry((src, dst, gate.clone())).or_insert(0); let s0 = *e; *e += data.len(); s0 };
+        // ---- shares of r opened by anybody (record = batch index) ----
+        if gate.ends_with("/validate/reveal_r") {
+            let mut off = (self.w - start % self.w) % self.w;
+            while off + self.w <= data.len() {
+                if let Ok(v) = E::deserialize(GenericArray::from_slice(&data[off..off + self.w])) {
+                    st.r_seen.insert((src, dst, (start + off) / self.w), v);
+                }
+                off += self.w;
+            }
+            return;
+        }
+        if self.mode == 1 {
+            return;
+        }
+        if self.mode == 2 {
+            let (c, right, left) = (self.c, (self.c + 1) % 3, (self.c + 2) % 3);
+            if src != c {
+                return;
+            }
+            let is_x = gate.ends_with("/mult") && dst == left;
+            let is_rx = gate.ends_with("/mult/duplicate_multiply") && dst == left;
+            let is_open = gate.ends_with("/open") && dst == right;
+            let width = if is_rx { self.w } else { self.wf };
+            if !(is_x || is_rx || is_open) {
+                return;
+            }
+            let lo = self.target * width;
+            if !(start <= lo && lo + width <= start + data.len()) {
+                return;
+            }
+            let off = lo - start;
+            if st.used_r.is_none() && (is_x || is_rx) {
+                // r of batch b is known to the corrupt helper once one of its peers has opened the share it lacks
+                let known = |b: usize| -> Option<E> {
+                    let missing = st.r_seen.get(&(right, c, b)).or_else(|| st.r_seen.get(&(left, c, b)))?;
+                    Some(*self.own_r.get(&(right, b))? + *self.own_r.get(&(left, b))? + *missing)
+                };
+                let mut pick = None;
+                for b in (0..=self.batch).rev() {
+                    if let Some(r) = known(b) {
+                        pick = Some((b, r));
+                        break;
+                    }
+                }
+                match pick {
+                    Some(p) => st.used_r = Some(p),
+                    None => {
+                        st.too_early += 1;
+                        return;
+                    }
+                }
+            }
+            let Some((b_used, r)) = st.used_r else { return };
+            if is_rx {
+                if let Ok(v) = E::deserialize(GenericArray::from_slice(&data[off..off + width])) {
+                    let mut buf = GenericArray::<u8, E::Size>::default();
+                    (v + r).serialize(&mut buf);
+                    data[off..off + width].copy_from_slice(&buf);
+                    st.fired.push(json!({"gate": gate, "what": "r added to the duplicate product share", "r_of_batch": b_used, "record_batch": self.batch}));
+                }
+            } else {
+                faults::apply_pattern(&format!("addle:{width}"), off, data);
+                st.fired.push(json!({"gate": gate, "what": if is_x { "1 added to the product share" } else { "1 added to the copy opened to the other honest helper" }, "r_of_batch": b_used, "record_batch": self.batch}));
+            }
+            return;
+        }
         let (is_m, is_r) = (gate.ends_with("/check_zero/multiply_with_r"), gate.ends_with("/check_zero/reveal_r"));
         if !(is_m || is_r) {
             return;
         }
-        let mut st = self.st.lock().unwrap();
-        let start = { let e = st.pos.entry((src, dst, gate.clone())).or_insert(0); let s0 = *e; *e += data.len(); s0 };
         // the batch's message occupies [batch*w, batch*w + w) of the stream; only handled when it arrives whole
         let lo = self.batch * self.w;
         if !(start <= lo && lo + self.w <= start + data.len()) {
@@ -315,7 +393,9 @@ where
 
 /// Pipeline workload with every helper on a task of its own (so that the scheduler can make one of them late), the
 /// given rewriting sites and the rushing check-zero behaviour of helper `corrupt` in batch `batch`.
-fn run_rush<F>(p: &Value, spec: &SchedSpec, xs: &[F], ys: &[F], sites: Vec<Site>, corrupt: usize, batch: usize) -> (OneRun, u64)
+#[allow(clippy::type_complexity)]
+fn run_rush<F>(p: &Value, spec: &SchedSpec, xs: &[F], ys: &[F], sites: Vec<Site>, corrupt: usize, batch: usize, mode: u8, target: usize,
+    own_r: BTreeMap<(usize, usize), F::ExtendedField>) -> (OneRun, u64, BTreeMap<(usize, usize, usize), F::ExtendedField>)
 where
     F: MacField,
     F: IntoShares<Replicated<F>>,
@@ -329,8 +409,9 @@ where
     let input_seed = pu64(p, "input_seed");
     let (tamper, _) = faults::tamper_many(sites);
     let rush = StdArc::new(RushCz::<F::ExtendedField> {
-        c: corrupt, w: <<F::ExtendedField as Serializable>::Size as Unsigned>::USIZE, batch,
-        st: StdMutex::new(RushSt { pos: BTreeMap::new(), z1: None, z2: None, repl: None, fired: Vec::new(), too_early: 0 }),
+        c: corrupt, w: <<F::ExtendedField as Serializable>::Size as Unsigned>::USIZE, batch, mode, target,
+        wf: <<F as Serializable>::Size as Unsigned>::USIZE, own_r,
+        st: StdMutex::new(RushSt { pos: BTreeMap::new(), z1: None, z2: None, repl: None, fired: Vec::new(), too_early: 0, r_seen: BTreeMap::new(), used_r: None }),
     });
     let (t2, r2) = (StdArc::clone(&tamper), StdArc::clone(&rush));
     let interceptor: crate::helpers::in_memory_config::DynStreamInterceptor = crate::sync::Arc::new(move |ctx: &crate::helpers::in_memory_config::InspectContext, data: &mut Vec<u8>| {
@@ -365,11 +446,11 @@ where
                 handles.push(shuttle::future::spawn(async move {
                     let _keep_node = keep_node;
                     let h = role_idx(ctx.role());
-                    if h == corrupt && slow {
+                    if h == corrupt && slow && mode != 1 {
                         // F5, targeted: the corrupt helper's task only moves when nobody else can
                         crate::verif::sim::mark_current_task_slow();
                     }
-                    let r = pipeline::<F>(ctx, shares, records, h == corrupt).await;
+                    let r = pipeline::<F>(ctx, shares, records, h == corrupt && mode != 1).await;
                     log.lock().unwrap().insert(h, r.map_err(|e| e.to_string()));
                 }));
             }
@@ -383,7 +464,7 @@ where
     let rs = rush.st.lock().unwrap();
     let mut fired = t.fired.clone();
     fired.extend(rs.fired.iter().cloned());
-    (OneRun { outcome, res: log.lock().unwrap().clone(), inv: t.chans.clone(), fired }, rs.fired.len() as u64 * 1000 + rs.too_early)
+    (OneRun { outcome, res: log.lock().unwrap().clone(), inv: t.chans.clone(), fired }, rs.fired.len() as u64 * 1000 + rs.too_early, rs.r_seen.clone())
 }
 
 fn exec_f<F>(p: &Value, explicit: Option<Vec<u32>>, tampered: bool, width: usize) -> RunRes
@@ -428,6 +509,7 @@ where
     let mut sr = Rng::sub(pu64(p, "site_seed"), 0);
     let addle = format!("addle:{width}");
     let rush = p.get("attack").and_then(Value::as_str) == Some("rush");
+    let known_r = p.get("attack").and_then(Value::as_str) == Some("known_r");
     let consistent = rush || p.get("attack").and_then(Value::as_str) == Some("consistent");
     // the record whose product share is altered (rush: its batch is the one whose check-zero step the helper rushes)
     let target = Rng::sub(pu64(p, "site_seed"), 0).below(records);
@@ -457,11 +539,38 @@ where
     if sites.is_empty() {
         return RunRes::inconclusive("no_site", "no channel of the corrupt helper".into(), shape, Some(honest.outcome));
     }
+    if known_r {
+        // first an honest run (helpers as tasks, eager network) that only records the shares of r the corrupt helper itself
+        // opens; then the same seed with the attack
+        let batch = target / pu(&p["knobs"], "active");
+        let (_, _, seen) = run_rush::<F>(p, &spec, &xs, &ys, Vec::new(), corrupt, batch, 1, target, BTreeMap::new());
+        let own: BTreeMap<(usize, usize), F::ExtendedField> = seen.iter().filter(|((s, _, _), _)| *s == corrupt).map(|((_, d, b), v)| ((*d, *b), *v)).collect();
+        let (bad, stat, _) = run_rush::<F>(p, &spec, &xs, &ys, Vec::new(), corrupt, batch, 2, target, own);
+        let (applied, too_early) = (stat / 1000, stat % 1000);
+        if applied == 0 {
+            let mut res = RunRes::pass(shape, true, Some(bad.outcome.clone()));
+            res.probe("known_r_no_opportunity", 1);
+            res.probe("known_r_messages_sent_before_any_r_was_known", too_early);
+            return res;
+        }
+        let site = Site { chan: ChanKey { kind: "mpc", src: corrupt, dst: (corrupt + 2) % 3, shard: 0, gate: "adaptive:known_r".into() }, chunk: 0, offset: 0, pattern: "known_r".into(), stream_off: None };
+        // (Fp31: acceptance with probability about 1/31 is legitimate and judged by the rate rule, as for blind tampering)
+        let mut res = judge_tampered(&bad, &want, corrupt, &[site], 1, &field, honest.inv.len(), shape);
+        let same_batch = bad.fired.iter().any(|f| f.get("r_of_batch") == f.get("record_batch"));
+        res.fault("F1a_known_r_attack", 1);
+        res.probe(if same_batch { "known_r_of_same_batch" } else { "known_r_of_earlier_batch" }, 1);
+        if res.verdict == Verdict::Violation {
+            res.class = if same_batch { "mac_r_known_before_products_sent".into() } else { "mac_r_of_earlier_batch_still_valid".into() };
+            res.detail = format!("{} [adaptive: helper {} used the r {} to add e to a product share and r*e to its duplicate]", res.detail, corrupt + 1,
+                if same_batch { "of the record's own batch, opened to it before it had sent the record's product shares" } else { "opened for an earlier batch" });
+        }
+        return res;
+    }
     let need = sites.len();
     if rush {
         // helpers as separate tasks; the corrupt one additionally rushes the check-zero step of the target record's batch
         let batch = target / pu(&p["knobs"], "active");
-        let (bad, rush_stat) = run_rush::<F>(p, &spec, &xs, &ys, sites.clone(), corrupt, batch);
+        let (bad, rush_stat, _) = run_rush::<F>(p, &spec, &xs, &ys, sites.clone(), corrupt, batch, 0, target, BTreeMap::new());
         let mut res = judge_tampered(&bad, &want, corrupt, &sites, need, &field, honest.inv.len(), shape);
         let (replaced, too_early) = (rush_stat / 1000, rush_stat % 1000);
         // the Fp31 acceptance-rate rule is about blind tampering: runs of this attack are counted apart
